@@ -10,11 +10,14 @@ every callee DEFINED in the module, with a small provenance analysis:
   every SSA value carries a set of tags saying where its bits may come from
     G:<g>  address of the named global g          K   loaded from a constant global
     S      loaded from shared memory (a global, or through an S pointer)
-    A      a parameter of the ROUTE function (the caller's own objects)
-    AG     loaded from memory reached from A (the caller's object graph)
-    H      fresh heap (result of operator new / malloc)
-    L:<id> an alloca (or sret/byval slot) of a frame of this thread
+    O|A<k>|<off>   the k-th parameter of the ROUTE function (the caller's own object), byte offset off
+    AG     loaded from memory reached from a route parameter (the caller's object graph)
+    O|H<site>|<off> fresh heap (result of operator new / malloc at that call site)
+    O|L<fn>:<v>|<off> an alloca of a frame of this thread
     U      unclassified
+  Objects owned by the thread (A, H, L) have a byte-offset-sensitive content summary (GEPs with constant
+  indices are turned into offsets with the x86-64 layout of the module's types), so that a pointer
+  stored in one field does not taint what is loaded from another.
   loads/stores/atomics are classified by the tags of their address operand.
 
 Blocks from which no `ret`/`resume` can be reached (they end in `unreachable`
@@ -858,17 +861,18 @@ def compile_ir(variant, repo, use_cache=True):
     path = os.path.join(d, '%s-%s.ll' % (variant, key))
     if use_cache and os.path.exists(path):
         return open(path).read(), key, ''
+    tmp = '%s.tmp%d' % (path, os.getpid())
     cmd = ['clang++', '-std=c++17', '-S', '-emit-llvm', '-fdiscard-value-names', '-D' + vlib.GUARD, '-I', inc,
-           '-Wno-deprecated-declarations', ROUTES_CPP, '-o', path + '.tmp'] + flags
+           '-Wno-deprecated-declarations', ROUTES_CPP, '-o', tmp] + flags
     rc, out = vlib.run(cmd, timeout=280)
     if rc != 0:
         return None, key, out
     if post:
-        rc, out2 = vlib.run(post + [path + '.tmp', '-o', path + '.tmp2'], timeout=120)
+        rc, out2 = vlib.run(post + [tmp, '-o', tmp + 'b'], timeout=120)
         if rc != 0:
             return None, key, out2
-        os.replace(path + '.tmp2', path + '.tmp')
-    os.replace(path + '.tmp', path)
+        os.replace(tmp + 'b', tmp)
+    os.replace(tmp, path)
     # keep the cache bounded
     ents = sorted((os.path.getmtime(os.path.join(d, e)), e) for e in os.listdir(d) if e.startswith(variant + '-'))
     for _, e in ents[:-3]:
@@ -988,12 +992,11 @@ def main():
         routes, keys = translate(variants, repo, use_cache)
         text = render(routes, keys, repo)
         routes_json = json.dumps({'source_key': '+'.join(keys), 'routes': routes}, indent=0)
-        with open(gv + '.tmp', 'w') as fh:
-            fh.write(text)
-        os.replace(gv + '.tmp', gv)
-        with open(gj + '.tmp', 'w') as fh:
-            fh.write(routes_json)
-        os.replace(gj + '.tmp', gj)
+        for dst, content in ((gv, text), (gj, routes_json)):
+            tmp = '%s.tmp%d' % (dst, os.getpid())
+            with open(tmp, 'w') as fh:
+                fh.write(content)
+            os.replace(tmp, dst)
         ents = sorted((os.path.getmtime(os.path.join(d, e)), e) for e in os.listdir(d) if e.startswith('gen-'))
         for _, e in ents[:-6]:
             try:
